@@ -368,9 +368,23 @@ func (ef *errflow) regionProblems(f *ssa.Function, S *ssa.BasicBlock, C map[ssa.
 				if calleeName(ci.Common()) == "database/sql.Tx.Rollback" {
 					rolledBack = true
 				}
+				// a helper that always rolls back the transaction it is given
+				if sc := ci.Common().StaticCallee(); sc != nil && isNewHelper(sc) {
+					for i := range ci.Common().Args {
+						if mustCallOnParam(sc, i, "database/sql.Tx.Rollback") {
+							rolledBack = true
+						}
+					}
+				}
 			}
 			if ret, ok := ins.(*ssa.Return); ok {
 				if errIdx < 0 {
+					// a stage split off from the sync root that rolls the block back and tells the root to go on with its
+					// loop: the block is retried without having been committed (I3), exactly as when the code sat in the root
+					if rolledBack && ef.sync != nil && ef.c.onlyCalledFromFamily(f, ef.sync) {
+						idioms["I3"] = true
+						return
+					}
 					problems = append(problems, fmt.Sprintf("function has no error result: error turned into a plain %s result at %s", resultKinds(f), ef.c.ipos(ret)))
 					return
 				}
@@ -591,6 +605,38 @@ func (ef *errflow) analyse(f *ssa.Function, ci ssa.CallInstruction, site *ErrSit
 		for _, u := range tests {
 			if u.iff != t.iff && u.v == t.v && u.N != u.S && len(u.N.Preds) == 1 && (u.N == t.iff.Block() || u.N.Dominates(t.iff.Block())) {
 				dead = true
+			}
+		}
+		// a later test whose block can only be reached from an earlier test's error side through a tolerated-sentinel
+		// edge (`if err != nil && err != ErrX { return err }; if err == nil {...}`): on its non-nil side the error is
+		// that sentinel, which the earlier test already let pass
+		if !dead {
+			for _, u := range tests {
+				if u.iff == t.iff || !(u.iff.Block() == t.iff.Block() || u.iff.Block().Dominates(t.iff.Block())) || u.S == t.iff.Block() {
+					continue
+				}
+				// reach from u's non-nil successor without crossing a sentinel-equal edge
+				seenB := map[*ssa.BasicBlock]bool{}
+				var walkB func(b *ssa.BasicBlock)
+				walkB = func(b *ssa.BasicBlock) {
+					if seenB[b] {
+						return
+					}
+					seenB[b] = true
+					eq := sentinelEqSucc(b, C)
+					for _, sx := range b.Succs {
+						if sx != eq {
+							walkB(sx)
+						}
+					}
+				}
+				walkB(u.S)
+				viaSentinelOnly := !seenB[t.iff.Block()]
+				// and the sentinel edge does lead there
+				if viaSentinelOnly && reachAvoiding(u.S, nil)[t.iff.Block()] {
+					dead = true
+					idioms["I4"] = true
+				}
 			}
 		}
 		if dead || tested[t.S] {
